@@ -326,8 +326,12 @@ def judge(p, events, meta, svc_name):
                         p.finding("http-method", **ctx, request_line=rq["request_line"])
                     path = rq["request_line"].split(" ")[1] if " " in rq["request_line"] else ""
                     from urllib.parse import urlparse
-                    if path != (urlparse(w.location).path or "/"):
+                    u = urlparse(w.location)
+                    target = (u.path or "/") + (";" + u.params if u.params else "") + ("?" + u.query if u.query else "")
+                    if path != target:
                         p.finding("address", expected=w.location, actual=path)
+                    if rq["host"] != u.netloc:
+                        p.finding("address", expected=u.netloc, actual="Host: " + rq["host"])
                     if rq["body"] != s["text"]:
                         p.finding("body-mismatch", **ctx)
                     cred = CREDS[ci]
